@@ -103,6 +103,18 @@ def worker(batch):
             want = [[n, d is not None] for n, d in mp] + [[n, d is not None] for n, d in zip(c["kw"], c["kwd"])]
             if got != want:
                 out["sig_bad"].append({"input": src, "impl": got, "model": want})
+                # the property itself, with CPython as the judge: the parser's parameters are the signature's (receiver excluded)
+                try:
+                    import inspect
+                    ns = {}
+                    exec(src, ns)
+                    py = [[n, p.default is not inspect.Parameter.empty] for n, p in inspect.signature(ns["f"]).parameters.items()]
+                    if c["first"]:
+                        py = py[1:]
+                    if [g[0] for g in got] != [q[0] for q in py]:
+                        out["items"].append(("C02/signature/parameter-names-differ-from-python", {"source": src, "parsed": got, "python": py}, None))
+                except Exception:  # noqa
+                    pass
                 continue
             # the default found on each positional parameter is the one the model pairs it with
             for n, d in mp:
